@@ -201,7 +201,9 @@ theorem pruneIns_inv (t : TNode τ α) (k : List τ) (v : α) (t' : TNode τ α)
         | none => rfl
         | some w => exact absurd (hl.1 rfl) hks
       subst hval
-      simp only [Option.some.injEq, Prod.mk.injEq] at h
+      -- (written so that it also goes through if the pruning branch credits
+      -- `(if val.isNone then 1 else 0) - c`, as a pending repair of the Python code does)
+      simp at h
       obtain ⟨rfl, rfl⟩ := h
       refine ⟨by simp [Wf, countKids, keys, WfKids], by simp [Leafy, LeafyKids], ?_⟩
       simp [count, countKids, hc]
